@@ -211,3 +211,30 @@ def conc_simulate(tm, sim, vals, ref, n, vf_prefix="V", additional_targets=None,
     if seed is not None:
         kw["seed"] = seed
     return sim(tm.params(C), initial_states=tm.init(C, n), **kw)
+
+
+def composed_fallback(rec, S, assume, full_claim, one):
+    """replay wrapper for inductive-step obligations: the solver's model of a step from an ABSTRACT
+    next-period array may assign that array values no parameter vector produces, so it need not replay
+    on a full run.  Then the solver is asked for a counterexample of the composed claim (no
+    abstraction); its model assigns parameters only and is replayed as it stands."""
+    from ..harness import model_assignment
+
+    def replay(vals):
+        r = one(vals)
+        if r is not None or rec.replay_target is not None or not isinstance(full_claim, z3.ExprRef):
+            return r
+        try:
+            r0, mdl = rec._check(list(assume) + [z3.Not(full_claim)], 30000)
+            if r0 == "sat":
+                alt = {k: v for k, v in model_assignment(mdl, S.symbols).items() if k in S.symbols}
+                r = one(alt)
+                if r is not None:
+                    r = dict(r)
+                    r.setdefault("inputs", alt)
+                return r
+        except Exception:  # noqa: BLE001
+            pass
+        return None
+
+    return replay
